@@ -48,6 +48,7 @@ class ProfileMachine(Machine):
                 'error': rng.chance(0.6), 'mask': rng.chance(0.4),
                 'method': rng.pick(['exact', 'exact', 'center', 'subpixel']),
                 'unit': rng.chance(0.2), 'nan': rng.chance(0.25),
+                'nan_error': rng.chance(0.25),
                 'center': rng.pick(['in', 'in', 'in', 'edge', 'out'])}
 
     def make_scene(self, rng, cfg):
@@ -92,8 +93,16 @@ class ProfileMachine(Machine):
             r0 = rng.uniform(0.3, 2.0)
         radii = [float(x) for x in np.round(r0 + np.cumsum([0.0] + steps),
                                             3)]
+        err = np.abs(g.normal(1, 0.2, data.shape)) + 0.1
+        if cfg.get('nan_error'):
+            # non-finite error at pixels whose data are finite: they must
+            # be masked automatically, with and without a user mask
+            for _ in range(rng.randint(1, 3)):
+                err[min(n - 1, max(0, int(xy[1]) + rng.randint(-3, 3))),
+                    min(m - 1, max(0, int(xy[0]) + rng.randint(-3, 3)))] = \
+                    rng.pick([np.nan, np.inf])
         return {'data': enc(data),
-                'error': enc(np.abs(g.normal(1, 0.2, data.shape)) + 0.1),
+                'error': enc(err),
                 'mask': enc(g.random(data.shape) < 0.08), 'xycen': xy,
                 'radii': radii}
 
@@ -499,7 +508,7 @@ class ProfileMachine(Machine):
         cfg = plan['cfg']
         for k, v in (('mask', False), ('error', False), ('unit', False),
                      ('nan', False), ('method', 'exact')):
-            if cfg.get(k) != v:
+            if cfg.get(k) != v and k in cfg:
                 p = dict(plan)
                 p['cfg'] = {**cfg, k: v}
                 yield p
